@@ -218,8 +218,9 @@ fn judge(ctx: &mut Ctx, calls: &[Call], cuts: &[usize], plan: FaultPlan, family:
             }
         };
         let case = |extra: serde_json::Value| {
-            json!({"calls": calls.iter().map(|c| format!("{}{}({:?})", c.func, c.inner.map(|i| format!("∘{i}")).unwrap_or_default(), arg_value(c, &a))).collect::<Vec<_>>(), "rule_boundaries": cuts,
-                   "faults": format!("{:?}", fx.plan.faults), "evaluation": round, "observed_invocations": show_log(&res.log), "expected_invocations": show_want(&pred.invocations), "detail": extra})
+            let short = |v: Vec<String>| v.into_iter().take(80).map(|x| clip(x, 300)).collect::<Vec<_>>();
+            json!({"calls": short(calls.iter().map(|c| format!("{}{}({:?})", c.func, c.inner.map(|i| format!("∘{i}")).unwrap_or_default(), arg_value(c, &a))).collect::<Vec<_>>()), "number_of_calls": calls.len(), "rule_boundaries": cuts.iter().take(20).collect::<Vec<_>>(),
+                   "faults": clip(format!("{:?}", fx.plan.faults), 600), "evaluation": round, "observed_invocations": short(show_log(&res.log)), "expected_invocations": short(show_want(&pred.invocations)), "detail": extra})
         };
         if let Some(d) = diff_log(&res.log, &pred.invocations) {
             let class = diff_class(&res.log, &pred.invocations);
@@ -259,7 +260,9 @@ fn judge(ctx: &mut Ctx, calls: &[Call], cuts: &[usize], plan: FaultPlan, family:
         ctx.hit(&format!("evaluation-round:{}", round.min(6)));
     }
     let pred = pred_first;
-    ctx.sample(family, || json!({"calls": calls.iter().map(|c| format!("{}({:?})", c.func, arg_value(c, &a))).collect::<Vec<_>>(), "invocations_expected": show_want(&pred.invocations), "cache_hits": pred.cache_hits}));
+    // samples are kept small: at most 30 calls, every rendering clipped (arguments can have megabytes)
+    ctx.sample(family, || json!({"calls": calls.iter().take(30).map(|c| clip(format!("{}({:?})", c.func, arg_value(c, &a)), 160)).collect::<Vec<_>>(), "number_of_calls": calls.len(),
+        "invocations_expected": show_want(&pred.invocations).into_iter().take(30).map(|x| clip(x, 200)).collect::<Vec<_>>(), "cache_hits": pred.cache_hits}));
 }
 
 fn plans(options: &[(String, Value, usize)], max_faults: usize) -> Vec<FaultPlan> {
